@@ -12,13 +12,23 @@ def main():
     if args[0] == '--src':
         src = args[1]
         args = args[2:]
+    scripted = False
+    if args[0] == '--scripted':
+        scripted = True
+        args = args[1:]
     case = json.load(open(args[0]))
     warnings.simplefilter('ignore')
     from symex import world, core
     world.enter_real(src)
     mod = importlib.import_module('harness.' + case['module'])
     h = mod.get_harness(case['harness'])
-    eng = core.ConcreteEngine(case['inputs'])
+    inputs = dict(case['inputs'])
+    if scripted:
+        from models import stubs
+        stubs.install_scripted_real()
+        stubs.reset_path()
+        inputs['#scripted'] = True
+    eng = core.ConcreteEngine(inputs)
     core.set_engine(eng)
     try:
         clauses = h.fn(eng, *case['size'])
@@ -35,7 +45,7 @@ def main():
         except Exception as e:
             res[n] = 'error %r' % (e,)
     failed = [n for n, v in res.items() if v is False]
-    out = {'failed': failed, 'clauses': res, 'notes': {k: str(v)[:400] for k, v in eng.path_notes.items()}}
+    out = {'failed': failed, 'mode': 'scripted library answers' if scripted else 'real libraries', 'clauses': res, 'notes': {k: str(v)[:400] for k, v in eng.path_notes.items()}}
     print('REPLAY-RESULT ' + json.dumps(out))
     return 1 if failed else 0
 
